@@ -179,6 +179,12 @@ func (fr *Frame) execInstr(st *State, instr ssa.Instruction) {
 		fr.setVal(x, v)
 	case *ssa.ChangeType:
 		v := fr.val(st, x.X)
+		if _, toIface := x.Type().Underlying().(*types.Interface); toIface && v.Sort != SIface {
+			// a value of type-parameter type converted to an interface (go/ssa emits ChangeType
+			// when the constraint's core is an interface): this is a boxing
+			fr.setVal(x, fc.makeIface(v, x.X.Type(), x.Type()))
+			break
+		}
 		v.T = x.Type()
 		fr.setVal(x, v)
 		if cl, ok := fr.closures[x.X]; ok {
@@ -547,10 +553,12 @@ func (fc *FnCtx) boxFuncs(sortS string) (box, unbox string) {
 }
 
 func (fc *FnCtx) makeIface(v Term, from, to types.Type) Term {
-	if _, ok := from.Underlying().(*types.Interface); ok {
-		r := v
-		r.T = to
-		return r
+	if _, isTP := types.Unalias(from).(*types.TypeParam); !isTP {
+		if _, ok := from.Underlying().(*types.Interface); ok {
+			r := v
+			r.T = to
+			return r
+		}
 	}
 	if _, ok := types.Unalias(from).(*types.TypeParam); ok {
 		// boxing a value of type-parameter type: dynamic type unknown
